@@ -42,7 +42,6 @@ CfgSeq == SetToSortSeq({c \in CfgTuples : c[1] <= c[2]}, TupLess)
 CfgRec(c) == [mn |-> c[1], mx |-> c[2], md |-> c[3], mc |-> c[4]]
 NCfg == Len(CfgSeq)
 ASSUME NCfg = 270
-ASSUME PrintT(<<"CFGS", ToJson(CfgSeq)>>)
 
 \* relative configurations of the float regions: offsets to the region's natural
 \* level (the harness clamps to 0..30); -99 means level 0
@@ -65,6 +64,7 @@ S ==
     IF Kind = "one" THEN {i \in 0..15 : Bit(t[2] + 16 * t[3], i)}
     ELSE UNION {{f * 16 + x : x \in Menu[t[f + 2]]} : f \in 0..5}
 NRoots == IF Kind = "one" THEN 1 ELSE 6
+SelNo == IF Kind = "one" THEN t[3] ELSE Number      \* sampling index of the region
 
 \* ---- W2 regions -----------------------------------------------------------------
 GN == 2 ^ GridG
@@ -123,7 +123,7 @@ Next ==
 
 \* ---- model theorems --------------------------------------------------------------
 Caps == {4, 30}
-DoModel == Full /\ Number % ModelEvery = 0
+DoModel == Full /\ SelNo % (IF Kind = "one" THEN ModelEvery ELSE 40 * ModelEvery) = 0
 CanonLaws ==
     DoModel =>
         LET C == Canon(S, D)
@@ -171,22 +171,23 @@ Satisfiable ==
 CanonicalFor(Xs) == {i \in 1..NCfg : IsCanonical(Xs, CfgRec(CfgSeq[i]))}
 PredCases ==
     LET C == Canon(S, D)
-        dens == {<<mn, md, cap>> : mn \in 0..4, md \in 1..3, cap \in Caps}
+        dens == {<<mn, md, cap>> : mn \in {(SelNo \div PredEvery) % 5}, md \in 1..3, cap \in Caps}
     IN  /\ \A x \in dens :
               PrintT(<<"CASE", ToJson([op |-> "denorm", roots |-> NRoots, x |-> SortCells(C),
                                        mn |-> x[1], md |-> x[2], cap |-> x[3],
                                        want |-> SortCells(Denorm(C, x[1], x[2], x[3]))])>>)
-        /\ \A x \in {y \in dens : y[3] = 30} :
-              LET Xs == SortCells(Denorm(C, x[1], x[2], 30))
-              IN  PrintT(<<"CASE", ToJson([op |-> "canonical", roots |-> NRoots, x |-> Xs,
-                                           want |-> SetToSortSeq(CanonicalFor(Xs), <)])>>)
+        \* one union per selected region (which one rotates with the region), all 270 configurations
+        /\ LET pick == (SelNo \div PredEvery) % 15
+               Xs == SortCells(Denorm(C, pick \div 3, (pick % 3) + 1, 30))
+           IN  PrintT(<<"CASE", ToJson([op |-> "canonical", roots |-> NRoots, x |-> Xs,
+                                        want |-> SetToSortSeq(CanonicalFor(Xs), <)])>>)
 
 EmitDiscrete ==
     /\ PrintT(<<"CASE", ToJson([op |-> "cover", kind |-> Kind, roots |-> NRoots, d |-> D, no |-> Number,
                                 leaves |-> SetToSortSeq(S, <),
                                 canon |-> SortCells(Canon(S, D)),
                                 nmin |-> [m \in 1..5 |-> NMin(S, D, m - 1)]])>>)
-    /\ (Number % PredEvery = 0 => PredCases)
+    /\ (SelNo % PredEvery = 0 => PredCases)
 
 EmitGrid ==
     LET r == t[3] h == t[4]
@@ -211,7 +212,8 @@ EmitRect ==
     ELSE TRUE
 
 Emit ==
-    IF Full THEN EmitDiscrete
+    IF Len(t) = 2 /\ Kind = "one" THEN PrintT(<<"CFGS", ToJson([cfgs |-> CfgSeq])>>)
+    ELSE IF Full THEN EmitDiscrete
     ELSE IF Kind = "grid" /\ Len(t) = 4 THEN EmitGrid
     ELSE IF Kind = "real" /\ Len(t) = 4 THEN EmitReal
     ELSE IF Kind = "rect" /\ Len(t) = 5 THEN EmitRect
@@ -245,5 +247,5 @@ ObsAgree ==
         LET o == Obs[t[3]]
             v == Verdicts(o)
         IN  IF \A k \in DOMAIN v : v[k] = o.verdict[k] THEN TRUE
-            ELSE PrintT(<<"DISAGREE", ToJson([line |-> t[3], spec |-> v, harness |-> o.verdict])>>) /\ FALSE
+            ELSE PrintT(<<"DISAGREE", ToJson([line |-> t[3], spec |-> v, harness |-> o.verdict])>>)  \* judged by the driver
 =============================================================================
